@@ -1326,7 +1326,10 @@ def fam_radio(tier):
                 base.put(148, 1, sel if t in (9, 18) else pre)
                 base.put(149, 19, 0)
                 key = "r%d-%d-%d" % (t, sel, pre)
+                if t in (9, 18):        # the reference carries the other selector value: the selector is part of the state
+                    base.put(148, 1, 1 - sel)
                 sc.decode(base.bytes(), tag="A:" + key)
+                base.put(148, 1, sel if t in (9, 18) else pre)
                 for sync in range(4):
                     for to in range(8):
                         for sv in subvals:
@@ -1362,6 +1365,8 @@ def fam_radio_exhaustive(tier):
             if v % 4096 == 0:
                 sc.unit()
                 base.put(168 - bits, bits, 0)
+                if bits == 20 and v < (1 << 19):        # reference with the other selector value
+                    base.put(148, 1, 1)
                 key = "x%d-%d" % (t, v // 4096)
                 sc.decode(base.bytes(), tag="A:" + key)
             base.put(168 - bits, bits, v)
